@@ -10,7 +10,7 @@ LEVEL = "exploration"
 FOCUS = ("C02",)
 RULE = ("Hypothesis-drawn histories as for C01 but with the C02 part of the mutation catalogue (reward = allowed+1 / "
         "+k / claiming fees the block's transactions do not leave, output 0, output MAX+1, output 2^64-1, outputs = "
-        "inputs+1, total MAX+1) and boundary fees (0, 1, all-but-one) plus legal reward shapes (less, split, no outputs); a quarter "
+        "inputs+1, total MAX+1; plus the double-spend candidates of C01's catalogue, judged here only through the supply invariant) and boundary fees (0, 1, all-but-one) plus legal reward shapes (less, split, no outputs); a quarter "
         "of the histories start from a fabricated deep base just below a subsidy halving (heights 1,050,000*k - 1..3 for k in "
         "{1,2,3,29,30,31,63,64}) so that rewards are judged on both sides of an era boundary. "
         "Oracle: acceptance => reference value clauses (each output and the total in (0,MAX], outputs <= inputs, reward <= "
@@ -22,7 +22,7 @@ RULE = ("Hypothesis-drawn histories as for C01 but with the C02 part of the muta
 ASSUMPTIONS = ["test configuration (fast scrypt stand-in, no checkpoints, short retarget periods)",
                "reference validator in vf/refmodel.py"]
 MIN_NONTRIVIAL = {"quick": 50, "thorough": 500}
-CATS = ["C02"]
+CATS = ["C02", "C02", "C02", "C01"]
 
 
 def shards(tier):
